@@ -3,6 +3,7 @@ C02  RBAC decision equals the declared rule semantics, deterministically.
 Only property theorems, non-vacuity examples and negative witnesses. Helper lemmas: Gpa/Lemmas/{Map,Rbac}.lean.
 -/
 import Gpa.Lemmas.Rbac
+import Gpa.Lemmas.Case
 namespace Gpa.Props.C02
 open Gpa.Rbac Gpa.Text Gpa.Url
 
@@ -161,10 +162,19 @@ theorem privMatch_rule_path_case (p : Privilege) (path' : Str) (u : Uri) (h : lo
     privMatch { p with path := path' } u = privMatch p u := by
   simp [privMatch, h]
 
+/-- in particular a rule written in any letter case decides like the same rule written in lower case -/
+theorem privMatch_rule_path_lowered (p : Privilege) (u : Uri) :
+    privMatch { p with path := lower p.path } u = privMatch p u :=
+  privMatch_rule_path_case p (lower p.path) u (lower_idem _)
+
 /-- … and so does the request's path -/
 theorem privMatch_request_path_case (p : Privilege) (u : Uri) (path' : Str) (h : lower path' = lower u.path) :
     privMatch p { u with path := path' } = privMatch p u := by
   simp [privMatch, h, queryPairs]
+
+theorem privMatch_request_path_lowered (p : Privilege) (u : Uri) :
+    privMatch p { u with path := lower u.path } = privMatch p u :=
+  privMatch_request_path_case p u (lower u.path) (lower_idem _)
 
 /-- rule query keys and values enter only through their lower-cased forms -/
 theorem privMatch_rule_query_case (p : Privilege) (qs : List (Str × Str)) (fk fv : Str → Str) (u : Uri)
